@@ -1,6 +1,7 @@
 import RSV.Props.C05
 import RSV.Props.C04gf8
 import RSV.Props.C04range
+import RSV.Props.C04gf16
 import RSV.Props.C05bitfield
 import RSV.Props.Consts
 /-!
